@@ -10,10 +10,12 @@ CONSTANTS
   MaxUpdate = 1
   ClearOnSet = FALSE
   ClearOnDelete = TRUE
+  BareKeyShortcut = FALSE
   Depth = 3
 CONSTRAINT Bound
 VIEW View
 INVARIANT WellFormedMaps
 INVARIANT NeverStale
 INVARIANT MemoCoherent
+INVARIANT FirstOfBest
 PROPERTY MCIndependent
